@@ -62,7 +62,8 @@ def to_code_data(code: CodeType) -> CodeData:
     fn_flags = flags_data & FN_FLAGS
     if len(fn_flags) == 0:
         block_type = None
-        assert not args, "if this isn't a function, it shouldn't have args"
+        if args:
+            raise ValueError("if this isn't a function, it shouldn't have args")
     elif len(fn_flags) == 2:
         # Use the first const as a docstring if its a string
         # https://github.com/python/cpython/blob/da8be157f4e275c4c32b9199f1466ed7e52f62cf/Objects/funcobject.c#L33-L38
